@@ -147,6 +147,54 @@ Module Memo.
     unfold simOn, wf, s0; simpl. repeat split; auto.
   Qed.
 
+  (* ---- C13: scipy_minimize starts from whatever individual value the model's state holds.
+     Variable 0 plays xi (individual), variable 1 the model parameter (kept); the optimiser oracle returns a function
+     of its start point (here: the start point itself).  `after_fit` still holds the first training individual's xi = 5,
+     `after_load` holds none: same kept variables, different result. *)
+  Definition api_call := api_call V sread swrite sclone tracked tape seed_pos.
+  Definition kept : view := fun m => m =? 1.
+  Definition opt (r : regs V) : option V := hd_or r.
+  Definition scipy : list (ev V) := scipy_script V [] 0 0 [0] opt.
+  Definition after_fit : st V := [Some 5%Z; Some 10%Z; None].
+  Definition after_load : st V := [None; Some 10%Z; None].
+
+  Example scipy_start_refuted :
+    simOn kept after_fit after_load
+    /\ option_map (fun c => cRegs c) (api_call scipy after_fit (0, 0, 0))
+       <> option_map (fun c => cRegs c) (api_call scipy after_load (0, 0, 0))
+    /\ flow_all V anc 1 ([kept], 0) scipy = None
+    /\ option_map (fun c => hd_or (cRegs c)) (api_call scipy after_fit (0, 0, 0)) = Some (Some 5%Z).
+  Proof.
+    split; [|split; [|split]].
+    - unfold simOn, wf, after_fit, after_load, kept; simpl. repeat split; auto; intros; discriminate.
+    - vm_compute. discriminate.
+    - vm_compute. reflexivity.
+    - vm_compute. reflexivity.
+  Qed.
+
+  (* the same call through a state cleaned by an MCMC personalisation (individual variables unset) agrees with the loaded model *)
+  Example scipy_after_clean_agrees :
+    option_map (fun c => cRegs c) (api_call scipy [None; Some 10%Z; Some 3%Z] (0, 0, 0))
+    = option_map (fun c => cRegs c) (api_call scipy after_load (0, 0, 0)).
+  Proof. vm_compute. reflexivity. Qed.
+
+  (* non-vacuity of the C13 statements: an estimate and an MCMC personalisation on the memo table *)
+  Definition est : list (ev V) := estimate_script V 0 2 (Some 7%Z) [].
+  Example estimate_runs :
+    option_map (fun c => (cRegs c, nth_error (cS c) 0)) (api_call est after_fit (0, 0, 0))
+    = Some ([Some 17%Z], Some after_fit)
+    /\ forallb (vadds (map fst (@nil (nat * option V))) (vadd 0 kept)) (anc 2) = true.
+  Proof. split; vm_compute; reflexivity. Qed.
+
+  Definition mcmc : list (ev V) :=
+    mcmc_script V [] [(0, fun _ => Some 0%Z)]
+                [EGet Cur 2; EDraw GTorch (fun _ => true); ESet Cur 0 hd_or; EGet Cur 2] [] [0].
+  Example mcmc_runs :
+    option_map (fun c => (cCur c, option_map (fun s => (snd (sread s 0), snd (sread s 1))) (model_state V c)))
+               (api_call mcmc after_fit (0, 0, 0))
+    = Some (1, Some (None, Some 10%Z)).
+  Proof. vm_compute; reflexivity. Qed.
+
   (* the interface holds for this memo table *)
   Lemma interface : state_interface V sread swrite sclone anc indep simOn.
   Proof.
